@@ -75,6 +75,17 @@ BitmaskTags(ev) ==
                               ev.wire[i].enc # AvpRecord(Avp(ev.kind, <<ev.wire[i].w>>)), "bitmask-reencode")
                          \o T(\E i \in 1..4 : ctor[i].enc # AvpRecord(Avp(ev.kind, ctor[i].bits)), "bitmask-reencode"))
 
+\* C17 over a whole range of wire words (thorough: all 2^32), swept inside the harness, which compares every word
+\* with the bits the CONSTRUCTOR sets and reports the words that fail.  The specification checks that those
+\* constructor words are the pinned layout (so that "the bit learned from the constructor" is the right bit),
+\* that the sweep covered the range it was asked for, and that nothing failed.
+VBitmaskSweep(ev) ==
+  (IF ev.out.t # "ok" THEN <<"outcome-" \o ev.out.t>>
+   ELSE T(\E i \in 1..4 : ev.ctor[i].bits # <<ExpectedCtorWord(ev.kind, ev.ctor[i].a, ev.ctor[i].b)>>, "bitmask-layout")
+        \o T(ev.tested_hi # ev.want_hi \/ ev.tested_lo # ev.want_lo, "harness-sweep-range")
+        \o T(ev.bad # << >>, "bitmask-accessor"))
+  \o IoTags(ev)
+
 VBitmask(ev) ==
   (IF ev.out.t # "ok" THEN <<"outcome-" \o ev.out.t>> ELSE BitmaskTags(ev)) \o IoTags(ev)
 
